@@ -83,3 +83,57 @@ package actionlint
 //@   props C11
 //@   ensures str != nil ==> scanned[str.Pos]
 //@   forbid_call (*String).ContainsExpression ContainsExpression
+
+// C11 / C01: between two callbacks the candidate list holds no nil entry (entries are set to nil only to be
+// removed by compact() before the callback returns), so every candidate can be asked for its children and
+// the end of a chain looks at every candidate
+//@ func (*UntrustedInputMap).findObjectProp
+//@   ensures [C11] result1 ==> result0 != nil
+//@ func (*UntrustedInputMap).findArrayElem
+//@   ensures [C11] result1 ==> result0 != nil
+//@ func (*UntrustedInputChecker).onVar
+//@   requires [C11] forall j: int :: 0 <= j && j < len(u.cur) ==> u.cur[j] != nil
+//@   ensures [C11] forall j: int :: 0 <= j && j < len(u.cur) ==> u.cur[j] != nil
+//@ func (*UntrustedInputChecker).onPropAccess
+//@   requires [C11] forall j: int :: 0 <= j && j < len(u.cur) ==> u.cur[j] != nil
+//@   ensures [C11] forall j: int :: 0 <= j && j < len(u.cur) ==> u.cur[j] != nil
+//@   loop "range u.cur":
+//@     invariant [C11] u.cur == old(u.cur)
+//@     invariant [C11] forall j: int :: range_i < j && j < len(u.cur) ==> u.cur[j] != nil
+//@     invariant [C11] !compact ==> (forall j: int :: 0 <= j && j <= range_i ==> u.cur[j] != nil)
+//@ func (*UntrustedInputChecker).onIndexAccess
+//@   requires [C11] forall j: int :: 0 <= j && j < len(u.cur) ==> u.cur[j] != nil
+//@   ensures [C11] forall j: int :: 0 <= j && j < len(u.cur) ==> u.cur[j] != nil
+//@   loop "range u.cur":
+//@     invariant [C11] u.cur == old(u.cur)
+//@     invariant [C11] forall j: int :: range_i < j && j < len(u.cur) ==> u.cur[j] != nil
+//@     invariant [C11] !compact ==> (forall j: int :: 0 <= j && j <= range_i ==> u.cur[j] != nil)
+//@ func (*UntrustedInputChecker).onObjectFilter
+//@   requires [C11] forall j: int :: 0 <= j && j < len(u.cur) ==> u.cur[j] != nil
+//@   ensures [C11] forall j: int :: 0 <= j && j < len(u.cur) ==> u.cur[j] != nil
+//@   loop "range u.cur":
+//@     invariant [C11] len(u.cur) >= len(range_x) && range_x == old(u.cur) && (u.cur == range_x || fresh(u.cur))
+//@     invariant [C11] forall j: int :: range_i < j && j < len(range_x) ==> range_x[j] != nil
+//@     invariant [C11] forall j: int :: range_i < j && j < len(u.cur) ==> u.cur[j] != nil
+//@     invariant [C11] !compact ==> (forall j: int :: 0 <= j && j <= range_i ==> u.cur[j] != nil)
+//@   loop "range cur.Children":
+//@     invariant [C11] len(u.cur) >= len(outer_range_x) && i < len(outer_range_x) && i == outer_range_i + 1
+//@     invariant [C11] outer_range_x == old(u.cur) && (u.cur == outer_range_x || fresh(u.cur))
+//@     invariant [C11] forall j: int :: i < j && j < len(outer_range_x) ==> outer_range_x[j] != nil
+//@     invariant [C11] forall j: int :: i < j && j < len(u.cur) ==> u.cur[j] != nil
+//@     invariant [C11] !compact ==> (forall j: int :: 0 <= j && j < i ==> u.cur[j] != nil)
+//@     invariant [C11] !compact && !first ==> u.cur[i] != nil
+//@     invariant [C11] first ==> (forall k: string :: !visited(k))
+//@     invariant [C11] !compact ==> len(cur.Children) > 0
+//@ func (*UntrustedInputChecker).end
+//@   requires [C11] forall j: int :: 0 <= j && j < len(u.cur) ==> u.cur[j] != nil
+//@ func (*UntrustedInputChecker).OnVisitNodeLeave
+//@   requires [C11] forall j: int :: 0 <= j && j < len(u.cur) ==> u.cur[j] != nil
+//@   ensures [C11] forall j: int :: 0 <= j && j < len(u.cur) ==> u.cur[j] != nil
+//@ func (*UntrustedInputChecker).OnVisitEnd
+//@   requires [C11] forall j: int :: 0 <= j && j < len(u.cur) ==> u.cur[j] != nil
+// the end of a chain reports iff one of the candidates is a leaf of the table (a leaf has no children map)
+//@ func (*UntrustedInputChecker).end
+//@   ensures [C11] (len(u.errs) == old(len(u.errs)) + 1) <==> (exists j: int :: 0 <= j && j < old(len(u.cur)) && old(u.cur)[j].Children == nil)
+//@   loop "range u.cur":
+//@     invariant [C11] (len(inputs) > 0) <==> (exists j: int :: 0 <= j && j <= range_i && u.cur[j].Children == nil)
